@@ -38,8 +38,9 @@ def modelled : List (String × String) := [
   ("StakeCredential", "Model/Gov.lean"), ("DRepCredential", "Model/Gov.lean"),
   ("CommitteeColdCredential", "Model/Gov.lean"),
   ("DRep", "Model/Gov.lean"), ("Voter", "Model/Gov.lean"),
-  ("VotingProcedure", "Model/Gov.lean"), ("GovActionId", "Model/Gov.lean"), ("PoolId", "Model/Pool.lean"),
-  ("PoolRegistration", "Model/Pool.lean"), ("SingleHostAddr", "Model/Pool.lean"),
+  ("VotingProcedure", "Model/Gov.lean"), ("GovActionId", "Model/Gov.lean"), ("HardForkInitiationAction", "Model/Gov.lean"),
+  ("PoolId", "Model/Pool.lean, Model/Gov.lean"),
+  ("PoolRegistration", "Model/Pool.lean"), ("PoolParams", "Model/Pool.lean"), ("SingleHostAddr", "Model/Pool.lean"),
   ("SingleHostName", "Model/Pool.lean"), ("MultiHostName", "Model/Pool.lean"),
   ("AlonzoMetadata", "Model/Metadata.lean"), ("AuxiliaryData", "Model/Metadata.lean"),
   ("ShelleyMarryMetadata", "Model/Metadata.lean"),
@@ -58,7 +59,7 @@ def modelled : List (String × String) := [
     "StakePoolVerificationKey"].map (fun n => (n, "Model/WitnessCodec.lean (key payload and text envelope)")))
 
 /-- classes with hand-written codec code and NO Lean model: their round trip is judged on the implementation only -/
-def implementationOnly : List String := ["CostModels", "HardForkInitiationAction"]
+def implementationOnly : List String := ["CostModels"]
 
 def accounted (n : String) : Bool := (modelled.map (·.1)).contains n || implementationOnly.contains n
 
@@ -73,7 +74,7 @@ theorem accounted_classes_exist :
     ((modelled.map (·.1)) ++ implementationOnly).all (fun n => (lookup repoSchema n).isSome) = true := by decide +kernel
 
 /-- how much of the hand-written codec code has a model (a lower bound that the kernel evaluates on the live table) -/
-theorem modelled_share : 56 ≤ ((repoSchema.filter handWritten).filter (fun c => (modelled.map (·.1)).contains c.name)).length := by
+theorem modelled_share : 58 ≤ ((repoSchema.filter handWritten).filter (fun c => (modelled.map (·.1)).contains c.name)).length := by
   decide +kernel
 
 /-- non-vacuity: a table-driven class that acquires its own `from_primitive` is flagged -/
